@@ -136,11 +136,16 @@ def rule_r1(ctx):
     rets = [n for n in own_nodes(wrap_f.node) if isinstance(n, ast.Return)]
     ok = bool(rets) and all(isinstance(r.value, ast.Name) and r.value.id == "original_methods" for r in rets)
     assigned = [n for n in own_nodes(wrap_f.node) if isinstance(n, ast.Assign) and norm(n.targets[0]) == "original_methods"]
+    # the capture is unconditional, at the top of the patching function: the "originals" are whatever the classes hold at
+    # the moment of patching (a table captured earlier - at construction - can be stale: another journal may have been
+    # entered or left in between)
     ok = ok and len(assigned) == 1 and norm(assigned[0].value) == "get_original_methods()" and \
-        wrap_f.node.body.index(assigned[0]) <= 1
-    ctx.check("R1", "wrap_ir_classes returns the table captured before patching", ok, wrap_f, wrap_f.node,
-              "the table handed to restore is not the one captured before the first patch",
-              how="single capture as first statement; returned unchanged")
+        assigned[0] in wrap_f.node.body and wrap_f.node.body.index(assigned[0]) <= 1
+    ctx.check("R1", "wrap_ir_classes returns the table captured before patching", ok, wrap_f, assigned[0] if assigned else wrap_f.node,
+              "the table that is wrapped and later handed to restore is not captured unconditionally at the time of patching "
+              "(first statement of wrap_ir_classes): with a table captured at another time, nested or re-entered journals wrap and "
+              "restore the wrong methods",
+              how="single unconditional capture as first statement; returned unchanged")
 
 
 def rule_r2(ctx):
